@@ -1,6 +1,51 @@
 // Copyright Amazon.com, Inc. or its affiliates. All Rights Reserved.
 // SPDX-License-Identifier: Apache-2.0
 
+/// Marks a publication point (an atomic store/swap, a waker registration, ...) for the
+/// verification harness.
+///
+/// Expands to nothing unless the crate is built with `--cfg aws_s2n_quic_verif`.
+macro_rules! verif_failpoint {
+    ($name:expr) => {
+        #[cfg(aws_s2n_quic_verif)]
+        $crate::sync::verif_failpoint::hit($name);
+    };
+}
+
+/// Failpoints for runtime verification of the `sync` primitives on real threads
+///
+/// A harness can install a function that is called at every publication point of the
+/// primitives in this module, e.g. to yield or sleep _between_ critical sections. This module
+/// only exists with `--cfg aws_s2n_quic_verif`; by default the installed function is a no-op.
+#[cfg(aws_s2n_quic_verif)]
+pub mod verif_failpoint {
+    use core::sync::atomic::{AtomicPtr, Ordering};
+
+    static HOOK: AtomicPtr<()> = AtomicPtr::new(core::ptr::null_mut());
+
+    /// Installs `f` to be called with the failpoint name at every failpoint
+    pub fn set(f: fn(&'static str)) {
+        HOOK.store(f as *mut (), Ordering::Release);
+    }
+
+    /// Removes the installed function
+    pub fn clear() {
+        HOOK.store(core::ptr::null_mut(), Ordering::Release);
+    }
+
+    #[doc(hidden)]
+    #[inline]
+    pub fn hit(name: &'static str) {
+        // `Relaxed`: the failpoint itself must not order anything for the code around it
+        let hook = HOOK.load(Ordering::Relaxed);
+        if !hook.is_null() {
+            // Safety: the only non-null values stored are `fn(&'static str)` pointers
+            let hook: fn(&'static str) = unsafe { core::mem::transmute(hook) };
+            hook(name);
+        }
+    }
+}
+
 #[cfg(feature = "alloc")]
 mod primitive;
 
